@@ -1,9 +1,11 @@
 package gosym
 
 import (
+	"strconv"
 	"bytes"
 	"encoding/json"
 	"fmt"
+	opautil "github.com/open-policy-agent/opa/util"
 	"go/token"
 	"go/types"
 	"reflect"
@@ -612,7 +614,8 @@ func registerEnvStubs(e *Engine) {
 				nd.UseNumber()
 			}
 			var n any
-			if err := nd.Decode(&n); err == nil {
+			err := nd.Decode(&n)
+			if err == nil {
 				if dst, ok := a[1].(iface); ok && dst.t != nil {
 					if pt, isPtr := dst.t.Underlying().(*types.Pointer); isPtr {
 						c := &jsonCodec{ps: ps, eng: fr.i.eng, tokens: map[string]value{}}
@@ -624,6 +627,13 @@ func registerEnvStubs(e *Engine) {
 						return iface{}
 					}
 				}
+			} else if dec.docs == 0 {
+				// concrete text from which no JSON value can be read: the real decoder's verdict
+				if bufCell != nil {
+					drainBuffer(bufCell)
+				}
+				dec.decided, dec.bad = true, true
+				return fr.i.nativeErr(err)
 			}
 		}
 		if dec.unreadable(ps) || dec.docs > 0 {
@@ -865,6 +875,48 @@ func registerEnvStubs(e *Engine) {
 			return &cell
 		}
 	}
+
+	// ---------- other decoders of a whole text into *any (native on concrete text; on the abstract
+	// data text they follow the same environment decision as the streaming decoder) ----------
+	textDecoder := func(name string, native func([]byte, *any) error) {
+		in[name] = func(fr *frame, a []value) value {
+			ps := fr.i.ps
+			ps.env().logs = append(ps.env().logs, name)
+			bs, _ := a[0].([]value)
+			raw := make([]byte, len(bs))
+			for k, b := range bs {
+				c, ok := b.(uint8)
+				if !ok {
+					panic(unsupported{name + " on symbolic bytes"})
+				}
+				raw[k] = c
+			}
+			dst, ok := a[1].(iface)
+			if !ok || dst.t == nil {
+				return errIface(fr.i, "stub: decode into nil")
+			}
+			pt, isPtr := dst.t.Underlying().(*types.Pointer)
+			if !isPtr {
+				return errIface(fr.i, "stub: decode into a non-pointer")
+			}
+			if strings.HasPrefix(string(raw), "<<") {
+				if ps.flagDecide("decode.err") {
+					return errIface(fr.i, "stub: invalid character looking for beginning of value")
+				}
+				*(dst.v.(*value)) = iface{t: types.Typ[types.String], v: "<<json:" + string(raw) + ">>"}
+				return iface{}
+			}
+			var n any
+			if err := native(raw, &n); err != nil {
+				return fr.i.nativeErr(err)
+			}
+			c := &jsonCodec{ps: ps, eng: fr.i.eng, tokens: map[string]value{}}
+			*(dst.v.(*value)) = c.fromNativeJSON(normaliseDecoded(n), pt.Elem())
+			return iface{}
+		}
+	}
+	textDecoder("github.com/open-policy-agent/opa/util.Unmarshal", func(b []byte, v *any) error { return opautil.Unmarshal(b, v) })
+	textDecoder("github.com/open-policy-agent/opa/util.UnmarshalJSON", func(b []byte, v *any) error { return opautil.UnmarshalJSON(b, v) })
 
 	// ---------- yaml (native on concrete text) ----------
 	in["gopkg.in/yaml.v3.Unmarshal"] = func(fr *frame, a []value) value {
@@ -1335,4 +1387,32 @@ func evalModuleIdentity(pq value) value {
 		}
 	}
 	return "stub-profile"
+}
+
+// normaliseDecoded turns what non-JSON decoders produce (map[any]any, int, float64 ...) into the
+// shapes the JSON codec knows.
+func normaliseDecoded(n any) any {
+	switch x := n.(type) {
+	case map[string]any:
+		for k, v := range x {
+			x[k] = normaliseDecoded(v)
+		}
+		return x
+	case map[any]any:
+		out := map[string]any{}
+		for k, v := range x {
+			out[fmt.Sprint(k)] = normaliseDecoded(v)
+		}
+		return out
+	case []any:
+		for k, v := range x {
+			x[k] = normaliseDecoded(v)
+		}
+		return x
+	case int:
+		return json.Number(strconv.Itoa(x))
+	case int64:
+		return json.Number(strconv.FormatInt(x, 10))
+	}
+	return n
 }
